@@ -334,6 +334,12 @@ _UNDEF = [0]
 _NO_CONST = object()
 
 
+class UndecidedTruth:
+    """the value of a named test that depends on symbolic values (see the Assign case of TenSym.step)"""
+    def __init__(self, why):
+        self.why = why
+
+
 class TenSym(PySym):
     def __init__(self, env=None, positive=(), funcs=None, parent=None, models=None):
         super().__init__(env, positive)
@@ -1067,6 +1073,8 @@ class TenSym(PySym):
             return bool(v.parts)
         if isinstance(v, Rat) and v.const_value() is not None:
             return v.const_value() != 0
+        if isinstance(v, UndecidedTruth):
+            raise Unsupported(v.why)
         raise Unsupported("truth value of a symbolic quantity")
 
     def percent_format(self, tmpl, b):
@@ -2470,7 +2478,19 @@ class TenSym(PySym):
 
     def st(self, s):
         if isinstance(s, ast.Assign):
-            v = self.ex(s.value)
+            try:
+                v = self.ex(s.value)
+            except ShapeError:
+                raise
+            except Unsupported as e_:
+                # a test of the *values* that is given a name before it is used (`looks_ok = np.all(x < limit)`): the name holds an
+                # undecided truth value; whatever needs it decided (an `if`, `not`, an index) raises then, exactly as the test written in place would
+                if len(s.targets) == 1 and isinstance(s.targets[0], ast.Name) and type(e_) is Unsupported and \
+                        str(e_).startswith(("comparison of symbolic values", "np.all of symbolic", "np.any of symbolic", "truth value of a symbolic")) and \
+                        isinstance(s.value, (ast.Compare, ast.BoolOp, ast.Call)):
+                    v = UndecidedTruth(str(e_))
+                else:
+                    raise
             for t in s.targets:
                 self.bind(t, v)
         elif isinstance(s, ast.AugAssign):
